@@ -26,6 +26,7 @@ pub fn run(env: &Env) {
     }
     env.ctx.set_rule("roots = suites x k0 (thorough + k1) x (L, M) in [0..=3]^2 (thorough [0..=4]^2) x header/ph in {none,16B} x commitment mode {no commitment as None, as Some(empty), commit(None), commit(Some([])), commit over M messages}; per root: commit -> blind_sign(serialized commitment) -> verify_blind_sign(committed messages, blinding factor) and signature bytes = reference; then ALL 2^L x 2^M disclosure pairs: blind_proof_gen -> blind_proof_verify(L) -> from_bytes(to_bytes) -> reference verifies -> implementation verifies a reference-made proof. State = (root, D, Dc). Non-trivial = blind proof produced with production randomness and verified by both verifiers.");
     env.ctx.extra("deviation_bound_completed", json!(0));
+    crate::hist::explore_families(env, &['B'], "blind interface histories");
     par_for(&roots, |_, r| {
         if !env.want(&r.id) || env.ctx.out_of_time() { return; }
         let zk = z(r.suite);
